@@ -25,7 +25,7 @@ MC_QUICK = ["mt", "tt", "mm", "mt_poll", "ext_mt", "ext_mt_poll", "mt_ov"]
 MC_THOROUGH = MC_QUICK + ["t12", "t12_poll", "ext_t12", "tt_ov"]
 CONTROLS = [("ext_old", "NeverStuck"), ("t12_old", "NeverStuck")]
 GEN_QUICK = [("mt", 40), ("tt", 30), ("mm", 30), ("t12", 60), ("mt_late", 40), ("mm_late", 30), ("mt_poll", 30),
-             ("t12_poll", 40), ("mt_poll_late", 30), ("ext_mm", 30), ("ext_mt", 40), ("ext_mt_poll", 30), ("mt_ov", 40), ("tt_ov", 40)]
+             ("t12_poll", 40), ("mt_poll_late", 30), ("ext_mm", 30), ("ext_mt", 40), ("ext_mt_poll", 30), ("mt_ov", 30), ("tt_ov", 30), ("mt_ovw", 40), ("tt_ovw", 60)]
 
 
 def run(run, tier, replay):
